@@ -66,6 +66,26 @@ def image_of_loaded(obj):
             "population_id": norm(obj["population_id"]), "custom": norm(obj["custom"]), "features": norm(obj["features"])}
 
 
+_DBS = {"n": 0, "old": []}
+
+
+def fresh_db(tag):
+    """A new file name for every world: a connection of an earlier world that is closed late (kept alive by an exception's
+    traceback, say) must not be able to touch the journal of the current one."""
+    import gc
+    _DBS["n"] += 1
+    if len(_DBS["old"]) > 8:
+        gc.collect()
+        for old in _DBS["old"][:-2]:
+            for ext in ("", "-journal"):
+                if os.path.exists(old + ext):
+                    os.remove(old + ext)
+        _DBS["old"] = _DBS["old"][-2:]
+    db = os.path.join(tempfile.gettempdir(), "%s-%d-%d.sqlite" % (tag, os.getpid(), _DBS["n"]))
+    _DBS["old"].append(db)
+    return db
+
+
 def make_world(variant):
     """Fresh problem, store file and the four individuals."""
     import numpy as np
@@ -78,10 +98,7 @@ def make_world(variant):
                            criteria=["minimize", "maximize"], param_extra=extra)
     problem.parameters[1]["name"] = 'y "quoted" é'
     problem.description = "multi\nline 'description'"
-    db = os.path.join(tempfile.gettempdir(), "c10-%d.sqlite" % os.getpid())
-    for ext in ("", "-journal"):
-        if os.path.exists(db + ext):
-            os.remove(db + ext)
+    db = fresh_db("c10")
     store = SqliteDataStore(problem, database_name=db)
     problem.data_store = store
     wrap = (lambda v: np.float64(v)) if variant == "numpy" else (lambda v: v)
@@ -241,10 +258,7 @@ def check_run(name, seed):
     """One run() with a store attached; afterwards every recorded individual has a row equal to its final data."""
     from .c_support import make_problem, reset_ids, run_algorithm
     from artap.datastore import SqliteDataStore
-    db = os.path.join(tempfile.gettempdir(), "c10run-%d.sqlite" % os.getpid())
-    for ext in ("", "-journal"):
-        if os.path.exists(db + ext):
-            os.remove(db + ext)
+    db = fresh_db("c10run")
     desc = "run of %s with a store" % name
     if name in ("NSGAII", "EpsMOEA", "OMOPSO", "SMPSO", "PSOGA"):
         from ..core.explorer import Ctx
